@@ -1,1 +1,203 @@
-// placeholder
+//! Own analyses over the mirror AST: lift to a policy, key kinds, fragment census, time-lock
+//! path sets.  These are the predicates C12 holds the validation switches to.
+
+use super::ast::Node;
+use super::spec::{self, Ctx};
+use crate::poleval::MPol;
+
+/// The specification's policy semantics of a miniscript.
+pub fn lift(n: &Node) -> MPol {
+    use Node::*;
+    match n {
+        True => MPol::Trivial,
+        False => MPol::Unsat,
+        PkK(k) | PkH(k) => MPol::Key(k.clone()),
+        RawPkH(h) => MPol::Key(format!("rawpkh:{}", h)),
+        After(t) => MPol::After(*t),
+        Older(t) => MPol::Older(*t),
+        Sha256(h) => MPol::Sha256(h.clone()),
+        Hash256(h) => MPol::Hash256(h.clone()),
+        Ripemd160(h) => MPol::Ripemd160(h.clone()),
+        Hash160(h) => MPol::Hash160(h.clone()),
+        Alt(x) | Swap(x) | Check(x) | DupIf(x) | Verify(x) | NonZero(x) | ZeroNotEqual(x) => lift(x),
+        AndV(x, y) | AndB(x, y) => MPol::And(vec![lift(x), lift(y)]),
+        AndOr(x, y, z) => MPol::Or(vec![(1, MPol::And(vec![lift(x), lift(y)])), (1, lift(z))]),
+        OrB(x, y) | OrD(x, y) | OrC(x, y) | OrI(x, y) => MPol::Or(vec![(1, lift(x)), (1, lift(y))]),
+        Thresh(k, v) => MPol::Thresh(*k, v.iter().map(lift).collect()),
+        Multi(k, ks) | SortedMulti(k, ks) | MultiA(k, ks) | SortedMultiA(k, ks) => MPol::Thresh(*k, ks.iter().map(|x| MPol::Key(x.clone())).collect()),
+    }
+}
+
+#[derive(Clone, Copy, Debug, PartialEq, Eq)]
+pub enum KeyKind {
+    Compressed,
+    Uncompressed,
+    XOnly,
+}
+
+pub fn key_kind(text: &str) -> KeyKind {
+    let mut t = text;
+    if t.starts_with('[') {
+        if let Some(e) = t.find(']') {
+            t = &t[e + 1..];
+        }
+    }
+    let is_hex = t.chars().all(|c| c.is_ascii_hexdigit());
+    if is_hex && t.len() == 130 {
+        KeyKind::Uncompressed
+    } else if is_hex && t.len() == 64 {
+        KeyKind::XOnly
+    } else {
+        KeyKind::Compressed
+    }
+}
+
+/// Keys the validation code looks at (pk_k, pk_h, multi*; not raw pkh).
+pub fn validated_keys(n: &Node) -> Vec<String> { n.keys() }
+
+pub fn has(n: &Node, pred: &dyn Fn(&Node) -> bool) -> bool {
+    let mut f = false;
+    n.walk(&mut |x| {
+        if pred(x) {
+            f = true;
+        }
+    });
+    f
+}
+
+pub fn has_duplicate_keys(n: &Node) -> bool {
+    let mut k = n.keys();
+    let l = k.len();
+    k.sort();
+    k.dedup();
+    k.len() < l
+}
+
+/// Some syntactic path needs a height- and a time-based lock of the same kind.
+pub fn has_mixed_timelocks(n: &Node) -> bool {
+    let p = lift(n);
+    path_sets(&p).iter().any(|s| (s & 3) == 3 || (s & 12) == 12)
+}
+
+/// Set of lock-kind combinations over syntactic paths: bit0 abs-height, bit1 abs-time,
+/// bit2 rel-height, bit3 rel-time.
+pub fn path_sets(p: &MPol) -> Vec<u8> {
+    fn cross(a: &[u8], b: &[u8]) -> Vec<u8> {
+        let mut v = Vec::new();
+        for x in a {
+            for y in b {
+                let z = x | y;
+                if !v.contains(&z) {
+                    v.push(z);
+                }
+            }
+        }
+        v
+    }
+    match p {
+        MPol::After(t) => vec![if *t >= 500_000_000 { 2 } else { 1 }],
+        MPol::Older(t) => vec![if t & 0x40_0000 != 0 { 8 } else { 4 }],
+        MPol::And(v) => v.iter().fold(vec![0u8], |acc, x| cross(&acc, &path_sets(x))),
+        MPol::Or(v) => {
+            let mut out = Vec::new();
+            for (_, x) in v {
+                for s in path_sets(x) {
+                    if !out.contains(&s) {
+                        out.push(s);
+                    }
+                }
+            }
+            out
+        }
+        MPol::Thresh(k, v) => {
+            let sets: Vec<Vec<u8>> = v.iter().map(path_sets).collect();
+            let n = v.len();
+            let mut out = Vec::new();
+            if n > 20 {
+                // wide thresholds of keys: no locks inside => single empty set per child
+                let mut acc = vec![0u8];
+                let mut any_lock = false;
+                for s in &sets {
+                    if s.iter().any(|x| *x != 0) {
+                        any_lock = true;
+                    }
+                }
+                if !any_lock {
+                    return vec![0];
+                }
+                // conservative fallback: union of everything crossed pairwise when k > 1
+                for s in &sets {
+                    acc = if *k > 1 { cross(&acc, &{ let mut t = s.clone(); t.push(0); t }) } else { let mut a2 = acc.clone(); a2.extend(s.iter()); a2 };
+                }
+                return acc;
+            }
+            for m in 0..(1u32 << n) {
+                if m.count_ones() as usize != *k {
+                    continue;
+                }
+                let mut acc = vec![0u8];
+                for (i, s) in sets.iter().enumerate() {
+                    if (m >> i) & 1 == 1 {
+                        acc = cross(&acc, s);
+                    }
+                }
+                for s in acc {
+                    if !out.contains(&s) {
+                        out.push(s);
+                    }
+                }
+            }
+            out
+        }
+        _ => vec![0],
+    }
+}
+
+/// Is this key kind legal in the context?
+pub fn key_legal(kind: KeyKind, ctx: Ctx) -> bool {
+    match (ctx, kind) {
+        (Ctx::Bare | Ctx::Legacy, KeyKind::XOnly) => false,
+        (Ctx::Segwitv0, KeyKind::Uncompressed | KeyKind::XOnly) => false,
+        (Ctx::Tap, KeyKind::Uncompressed) => false,
+        _ => true,
+    }
+}
+
+/// Context rules every accepted miniscript must obey (consensus level).  Returns the first
+/// violated rule.
+pub fn context_violation(n: &Node, ctx: Ctx, top_level: bool) -> Option<String> {
+    let t = match spec::type_of_ex(n, ctx, false) {
+        Ok(t) => t,
+        Err(e) => return Some(format!("ill-typed: {}", e)),
+    };
+    if top_level && t & spec::B == 0 {
+        return Some(format!("top-level-not-B ({})", spec::show(t & spec::BASES)));
+    }
+    for k in n.keys() {
+        if !key_legal(key_kind(&k), ctx) {
+            return Some(format!("illegal-key-kind {:?}", key_kind(&k)));
+        }
+    }
+    if matches!(ctx, Ctx::Bare | Ctx::Legacy) {
+        if has(n, &|x| matches!(x, Node::DupIf(_))) {
+            return Some("d:-pre-segwit".into());
+        }
+        if has(n, &|x| matches!(x, Node::OrI(..))) {
+            return Some("or_i-pre-segwit".into());
+        }
+    }
+    if n.height() > 402 {
+        return Some("too-deep".into());
+    }
+    if let Ok(s) = super::encode::encode(n, ctx) {
+        let limit = match ctx {
+            Ctx::Legacy => 520,
+            Ctx::Segwitv0 | Ctx::Bare => 10_000,
+            Ctx::Tap => usize::MAX,
+        };
+        if s.len() > limit {
+            return Some(format!("script-too-large {}", s.len()));
+        }
+    }
+    None
+}
